@@ -172,3 +172,23 @@ Definition dial_peer (local p : N) (dsync : dialres) : dialres :=
        | DErr => DErr
        | DConn r => if r =? p then DConn r else DErr    (* "unexpected peer" *)
        end.
+
+(* ---- the QUIC transport's hole punching (transport.go holePunch, listener.go Accept) ---------- *)
+(* an active hole punch is registered under holePunchKey{addr, peer}; Accept hands an
+   inbound connection to the punch registered under ITS (remote address, authenticated
+   peer), and returns every other connection to the ordinary accept queue *)
+Definition hp_key := (N * N)%type.      (* remote UDP address, peer *)
+Definition hp_key_eqb (a b : hp_key) : bool := (fst a =? fst b) && (snd a =? snd b).
+Definition hole_punch (punch accepted : hp_key) : dialres :=
+  if hp_key_eqb accepted punch then DConn (snd accepted) else DErr.   (* ErrHolePunching after the timeout *)
+
+(* ---- upgrader.upgrade / setupSecurity ----------------------------------------------------------- *)
+(* Upgrade(dir, p): outbound with p = "" is refused (ErrNilPeer); the security handshake is
+   SecureInbound(ctx, conn, p) when dir is inbound and SecureOutbound(ctx, conn, p) otherwise —
+   the expected peer is passed on in BOTH roles (inbound with a non-empty p: the dialing side of
+   a TCP simultaneous connect).  [remote]: the identity the remote proves. *)
+Definition upgrade (inbound : bool) (p : option N) (remote : N) : dialres :=
+  match p with
+  | None => if inbound then DConn remote else DErr
+  | Some x => if x =? remote then DConn remote else DErr
+  end.
